@@ -64,6 +64,17 @@ func init() {
 	ev.Assume("'updated' is applicable when the model has a version id and a non-zero updated time; 'created' when the document is published")
 }
 
+var transformers = map[string]*didtransformer.Transformer{}
+
+// heldResult is a result a caller still holds: the live object and its JSON at the time it was returned.
+type heldResult struct {
+	key      string
+	live     *document.ResolutionResult
+	snapshot string
+}
+
+var held []heldResult
+
 // TestReplay runs first.
 func TestReplay(t *testing.T) { ev.ReplayMain(t) }
 
@@ -137,11 +148,28 @@ func evalCase(c *Case) (string, string) {
 	var rr *document.ResolutionResult
 	var err error
 	before := js(c.Doc)
-	if p := ev.Catch(func() { rr, err = didtransformer.New(opts...).TransformDocument(rm, ti) }); p != "" {
+	// one long-lived transformer per option set, as on a real node
+	tkey := fmt.Sprintf("%v|%v|%v|%q", c.Base, c.IncludePub, c.IncludeUnpub, c.MethodCtx)
+	tr, ok := transformers[tkey]
+	if !ok {
+		tr = didtransformer.New(opts...)
+		transformers[tkey] = tr
+	}
+	if p := ev.Catch(func() { rr, err = tr.TransformDocument(rm, ti) }); p != "" {
 		return "C19/panic", "TransformDocument panicked: " + p
 	}
 	if err != nil {
 		return "C19/transform-error", fmt.Sprintf("TransformDocument failed on a well-formed model: %v; doc %s", err, before)
+	}
+	// results handed out earlier by the same long-lived transformers must not change when later calls run
+	for _, h := range held {
+		if now := js(h.live); now != h.snapshot {
+			return "C19/earlier-result-changed", fmt.Sprintf("a resolution result returned earlier changed after a later TransformDocument call on the same transformer (options %s): was %s, now %s", h.key, h.snapshot, now)
+		}
+	}
+	held = append(held, heldResult{key: tkey, live: rr, snapshot: js(rr)})
+	if len(held) > 12 {
+		held = held[1:]
 	}
 	want, perr := refdoc.Project(refdoc.FromMap(c.Doc), did, refdoc.ProjectOpts{Base: c.Base, MethodContext: c.MethodCtx})
 	if perr != nil {
@@ -226,7 +254,7 @@ func diffKeys(a, b map[string]interface{}) []string {
 }
 
 func TestProjection(t *testing.T) {
-	ev.Rule(chk, "rapid: internal documents with 0-6 keys over every type x purposes x material (Ed25519 2018/2020 with genuine 32-byte OKP JWKs, JsonWebKey2020 over 4 curves, base58 material), 0-3 services of every endpoint shape with extra members, 0-3 alsoKnownAs URIs, other members; resolution models (commitments present/absent, anchor origin of several JSON types, deactivated, times 0 and > 0 incl. updated == created, version id, canonical / equivalent references, operation lists with non-monotone numbers and duplicate references); options (base, method contexts incl. ones equal to a key-suite context, include-operations flags); transformation info from GetTransformationInfoFor{Published,Unpublished} (label, domain, long form); oracle: external document == independent projection (kit/refdoc: own base58 / multibase, id qualification, controller, relationship sections exactly per purposes, services qualified with remaining members, alsoKnownAs unchanged, contexts = DID context, method contexts, base, one per key type in order of first use, no publicKey member) and metadata == model (commitments, anchor origin, deactivated, published, version id, RFC 3339 times when applicable, canonical / equivalent ids), operation lists present iff enabled, de-duplicated, ordered; non-trivial = >= 2 keys with different purposes or types, or base enabled, or an Ed25519 re-encoding")
+	ev.Rule(chk, "rapid: internal documents with 0-6 keys over every type x purposes x material (Ed25519 2018/2020 with genuine 32-byte OKP JWKs, JsonWebKey2020 over 4 curves, base58 material), 0-3 services of every endpoint shape with extra members, 0-3 alsoKnownAs URIs, other members; resolution models (commitments present/absent, anchor origin of several JSON types, deactivated, times 0 and > 0 incl. updated == created, version id, canonical / equivalent references, operation lists with non-monotone numbers and duplicate references); options (base, method contexts incl. ones equal to a key-suite context, include-operations flags); transformation info from GetTransformationInfoFor{Published,Unpublished} (label, domain, long form); the transformers are long-lived (one per option set for the whole process) and the last 12 results stay held: none of them may change when later calls run; oracle: external document == independent projection (kit/refdoc: own base58 / multibase, id qualification, controller, relationship sections exactly per purposes, services qualified with remaining members, alsoKnownAs unchanged, contexts = DID context, method contexts, base, one per key type in order of first use, no publicKey member) and metadata == model (commitments, anchor origin, deactivated, published, version id, RFC 3339 times when applicable, canonical / equivalent ids), operation lists present iff enabled, de-duplicated, ordered; non-trivial = >= 2 keys with different purposes or types, or base enabled, or an Ed25519 re-encoding")
 	ev.Rapid(t, chk, 1500, 15000, func(t *rapid.T) {
 		c := &Case{Namespace: "did:sidetree", Suffix: "EiD" + rapid.StringMatching(`[A-Za-z0-9_-]{6}`).Draw(t, "suffix")}
 		d := map[string]interface{}{}
@@ -286,13 +314,16 @@ func TestProjection(t *testing.T) {
 		}
 		c.Base = rapid.Bool().Draw(t, "base")
 		if rapid.Bool().Draw(t, "methodCtx") {
-			// method contexts: free-form ones and, now and then, one that coincides with a key-suite context
-			pool := []string{"https://w3id.org/did/v1/method", "https://second.example/ctx", "https://w3id.org/security/suites/jws-2020/v1", "https://w3id.org/security/suites/ed25519-2018/v1", "https://w3id.org/security/suites/x25519-2019/v1", "https://www.w3.org/ns/did/v1"}
-			n := rapid.IntRange(1, 3).Draw(t, "methodCtxCount")
-			c.MethodCtx = nil
-			for i := 0; i < n; i++ {
-				c.MethodCtx = append(c.MethodCtx, rapid.SampledFrom(pool).Draw(t, "methodCtx"))
-			}
+			// method contexts come from a handful of node configurations (so that each long-lived transformer is reused
+			// often): free-form ones and ones that coincide with a key-suite context or the DID context
+			c.MethodCtx = rapid.SampledFrom([][]string{
+				{"https://w3id.org/did/v1/method"},
+				{"https://w3id.org/did/v1/method", "https://second.example/ctx"},
+				{"https://w3id.org/did/v1/method", "https://w3id.org/security/suites/jws-2020/v1"},
+				{"https://w3id.org/security/suites/ed25519-2018/v1", "https://second.example/ctx", "https://w3id.org/security/suites/x25519-2019/v1"},
+				{"https://w3id.org/did/v1/method", "https://second.example/ctx", "https://third.example/ctx", "https://www.w3.org/ns/did/v1"},
+				{"a:1", "a:2", "a:3", "a:4", "a:5"},
+			}).Draw(t, "methodCtx")
 		}
 		c.IncludePub, c.IncludeUnpub = rapid.Bool().Draw(t, "includePub"), rapid.Bool().Draw(t, "includeUnpub")
 		np := rapid.IntRange(0, 5).Draw(t, "pubOps")
